@@ -38,6 +38,10 @@ func (o mop) String() string {
 		return fmt.Sprintf("ForEach%s(stop@%d)", dir, o.N)
 	case "ForEachDelete":
 		return fmt.Sprintf("ForEach%s(delete-current mask=%b)", dir, o.Mask)
+	case "ForEachDeleteNext":
+		return fmt.Sprintf("ForEach%s(delete-successor@%d)", dir, o.N)
+	case "ForEachAppend":
+		return "ForEach(append-at-tail)"
 	}
 
 	return o.Op + "()"
@@ -201,6 +205,77 @@ func (w *omapWorld) apply(o mop) string {
 				w.everDeleted[e.k] = true
 			}
 		}
+	case "ForEachDeleteNext":
+		// the callback, when it is called for the (N mod (size-1))+1-th entry, deletes the entry that would be visited
+		// next: a key that is no longer live when the iteration gets there must not be visited
+		want := w.want(o.Reverse)
+		if len(want) < 2 {
+			break
+		}
+		at := o.N % (len(want) - 1)
+		victim := want[at+1].k
+		var seen []kv
+		var problem string
+		f := func(k E, v uint32) bool {
+			seen = append(seen, kv{k, v})
+			if len(seen) == at+1 && !m.Delete(victim) {
+				problem = fmt.Sprintf("Delete(%d) of the live successor returned false", victim)
+			}
+
+			return true
+		}
+		var completed bool
+		if o.Reverse {
+			completed = m.ForEachReverse(f)
+		} else {
+			completed = m.ForEach(f)
+		}
+		if problem != "" {
+			return problem
+		}
+		expect := append(append([]kv{}, want[:at+1]...), want[at+2:]...)
+		if !completed || !eqKV(seen, expect) {
+			return fmt.Sprintf("%s (consumer deletes key %d while it is called for key %d) visited %v (completed=%v), model %v: a key deleted before the iteration reaches it is not live any more", o, victim, want[at].k, seen, completed, expect)
+		}
+		w.keys.del(victim)
+		delete(w.vals, victim)
+		w.everDeleted[victim] = true
+		w.iterDelete = true
+	case "ForEachAppend":
+		// the callback, when it is called for the current tail, inserts a key that is not in the map: it becomes the new
+		// tail and is live when the iteration advances, so it is visited as well
+		want := w.want(false)
+		var fresh E
+		found := false
+		for _, k := range w.universe {
+			if !w.keys.has(k) {
+				fresh, found = k, true
+
+				break
+			}
+		}
+		if len(want) == 0 || !found {
+			break
+		}
+		var seen []kv
+		f := func(k E, v uint32) bool {
+			seen = append(seen, kv{k, v})
+			if len(seen) == len(want) {
+				m.Set(fresh, 77)
+			}
+
+			return true
+		}
+		completed := m.ForEach(f)
+		expect := append(append([]kv{}, want...), kv{fresh, 77})
+		if !completed || !eqKV(seen, expect) {
+			return fmt.Sprintf("%s (consumer appends key %d while it is called for the tail) visited %v (completed=%v), model %v", o, fresh, seen, completed, expect)
+		}
+		if w.everDeleted[fresh] {
+			w.reinserted = true
+		}
+		w.keys.add(fresh)
+		w.vals[fresh] = 77
 	case "Clear":
 		m.Clear()
 		for _, k := range w.keys.slice() {
@@ -286,7 +361,7 @@ func (w *omapWorld) payload(problem string) map[string]any {
 
 func TestOrderedMapModel(t *testing.T) {
 	stats.Rule(checkOMap, "rapid state machine on one SerializableOrderedMap[uint16,uint32] (embeds OrderedMap) over a universe of 6-8 keys vs. a slice+map model; "+
-		"actions Set/Get/Has/Delete/ForEach+ForEachReverse with early stop and with delete-current-key inside the callback/Clear/Clone (+mutating the clone)/Encode->Decode into a fresh map; "+
+		"actions Set/Get/Has/Delete/ForEach+ForEachReverse with early stop, with delete-current-key, delete-the-successor and append-at-the-tail from inside the callback/Clear/Clone (+mutating the clone)/Encode->Decode into a fresh map; "+
 		"after every action forward and reverse iteration (keys and values), Size, IsEmpty, Head, Tail and Get/Has of every universe key are compared; distinct by op list; "+
 		"non-trivial = a deleted key was re-inserted while other keys were live AND (an existing non-tail key was overwritten OR a key was deleted from inside an iteration that continued)")
 
@@ -318,6 +393,10 @@ func TestOrderedMapModel(t *testing.T) {
 			"ForEachStop": func(*rapid.T) {
 				step(mop{Op: "ForEachStop", N: rapid.IntRange(0, 7).Draw(rt, "stopAt"), Reverse: rapid.Bool().Draw(rt, "reverse")})
 			},
+			"ForEachDeleteNext": func(*rapid.T) {
+				step(mop{Op: "ForEachDeleteNext", N: rapid.IntRange(0, 7).Draw(rt, "at"), Reverse: rapid.Bool().Draw(rt, "reverse")})
+			},
+			"ForEachAppend": func(*rapid.T) { step(mop{Op: "ForEachAppend"}) },
 			"ForEachDelete": func(*rapid.T) {
 				// mostly one or two keys so the map is not emptied all the time
 				mask := 1 << rapid.IntRange(0, len(w.universe)-1).Draw(rt, "delKey")
